@@ -93,7 +93,16 @@ def make_device(dspec):
         for cid in dspec["channels"]:
             cls = {"rydberg": Rydberg, "raman": Raman, "mw": Microwave}[cid.split("_")[0]]
             ctor = cls.Global if cid.endswith("global") else cls.Local
-            chans.append(ctor(None, None, max_duration=None))
+            if cid == "rydberg_global" and dspec.get("eom"):
+                from pulser.channels.eom import RydbergBeam, RydbergEOM
+
+                bw, ebw = dspec["eom"]
+                chans.append(ctor(None, None, max_duration=None, mod_bandwidth=float(bw), eom_config=RydbergEOM(
+                    limiting_beam=RydbergBeam.RED, max_limiting_amp=30 * 2 * math.pi,
+                    intermediate_detuning=450 * 2 * math.pi, mod_bandwidth=float(ebw),
+                    controlled_beams=(RydbergBeam.BLUE,))))
+            else:
+                chans.append(ctor(None, None, max_duration=None))
             ids.append(cid)
         return VirtualDevice(
             name="C05Virtual", dimensions=3, rydberg_level=dspec["rydberg_level"], max_atom_num=None,
@@ -154,6 +163,12 @@ def build(case):
             seq.align(*op["chs"])
         elif k == "phase_shift":
             seq.phase_shift(op["phi"], *op["q"], basis=op["basis"])
+        elif k == "eom_on":
+            seq.enable_eom_mode(op["ch"], op["amp_on"], op["det_on"], optimal_detuning_off=op["det_off"])
+        elif k == "eom_pulse":
+            seq.add_eom_pulse(op["ch"], op["dur"], op["phase"], protocol=op.get("protocol", "min-delay"))
+        elif k == "eom_off":
+            seq.disable_eom_mode(op["ch"])
         else:
             raise InfraError(f"unknown op {k}")
     return seq, reg, device
@@ -221,6 +236,7 @@ def render(seq) -> Rendered:
     T = 0
     xy = False
     first_global = None     # (ti, tf) of the earliest-starting first pulse of a global drive channel
+    open_eom = []
     for name, sch in seq._schedule.items():
         ch = sch.channel_obj
         is_dmm = isinstance(ch, DMM)
@@ -239,6 +255,13 @@ def render(seq) -> Rendered:
                     if all(abs(a - b) <= 1e-6 for a, b in zip(trc, c)):
                         w += float(wt)
                 weights.append(w)
+        blocks = list(getattr(sch, "eom_blocks", []) or [])
+        if blocks and blocks[-1].tf is None and sch.slots and sch.slots[-1].ti >= 0:
+            # the channel is left in EOM mode: while it idles (after its last instruction, until the end of the
+            # sequence) its detuning stays at detuning_off.  A CLOSED block leaves nothing behind: detuning 0.
+            last = sch.slots[-1]
+            open_eom.append((name, ch.basis, cls, last.tf, float(blocks[-1].detuning_off),
+                             [1.0 if (cls == "G" or q in last.targets) else 0.0 for q in ids]))
         seen_first = False
         for slot in sch.slots:
             if slot.ti >= 0:
@@ -261,6 +284,10 @@ def render(seq) -> Rendered:
                     seen_first = True
                     if first_global is None or slot.ti < first_global[0]:
                         first_global = (slot.ti, slot.tf)
+    for name, basis, cls, t_end, det_off, w in open_eom:
+        if t_end <= T:
+            m = T + 1 - t_end
+            contribs.append(Contribution(name, basis, cls, t_end, T + 1, np.zeros(m), np.full(m, det_off), 0.0, w))
     mask, mask_end = [], 0
     if xy and seq._slm_mask_targets and first_global is not None:
         mask = sorted(ids.index(q) for q in seq._slm_mask_targets)
@@ -443,6 +470,11 @@ def gen_case(rng: random.Random) -> dict:
     if base == "Virtual":
         dspec["channels"] = ["rydberg_global", "rydberg_local", "raman_global", "raman_local", "mw_global"]
         dspec["reusable"] = reusable
+    # EOM-capable global Rydberg channel: the custom device (short rise times) or AnalogDevice (240 ns buffers)
+    want_eom = mode in ("gr", "all") and ((base == "Virtual" and rng.random() < 0.5)
+                                          or (base == "AnalogDevice" and rng.random() < 0.35))
+    if want_eom and base == "Virtual":
+        dspec["eom"] = rng.choice([[80, 160], [40, 120], [120, 240]])
     nch = rng.choices([1, 2, 3], [35, 40, 25])[0]
     chosen = []
     if mode == "all":
@@ -450,6 +482,9 @@ def gen_case(rng: random.Random) -> dict:
         chosen = [rng.choice([c for c in pool if c.startswith("rydberg")]),
                   rng.choice([c for c in pool if c.startswith("raman")])]
         nch = max(nch, 2)
+    if want_eom and "rydberg_global" not in chosen:
+        chosen.append("rydberg_global")
+        nch = max(nch, len(chosen) + (1 if base != "AnalogDevice" and rng.random() < 0.7 else 0))
     while len(chosen) < nch:
         c = rng.choice(pool)
         if c in chosen and not reusable:
@@ -550,6 +585,32 @@ def gen_case(rng: random.Random) -> dict:
             if not any(o["k"] == "add" and o["ch"] == name for o in body) and rng.random() < 0.85:
                 body.append({"k": "add", "ch": name, "dur": rng.randrange(2, 9), "amp": ["const", rng.choice(AMPS[1:])],
                              "det": _det_spec(rng), "phase": rng.choice(PHASES), "protocol": "min-delay"})
+    if want_eom:
+        # enable -> EOM pulses / idle -> disable (mostly), then something longer on another channel, so that the
+        # Hamiltonian is sampled after the EOM channel's own end (and always at t = duration)
+        ename = next(nm for nm, cid in chans if cid == "rydberg_global")
+        seg = [{"k": "eom_on", "ch": ename, "amp_on": rng.choice([2.0, 3.5, 6.0]), "det_on": rng.choice([0.0, 1.0, -2.0]),
+                "det_off": rng.choice([0.0, -5.0, 3.0, -12.0])}]
+        for _ in range(rng.randrange(1, 4)):
+            if rng.random() < 0.75:
+                seg.append({"k": "eom_pulse", "ch": ename, "dur": rng.choice([16, 20, 32]) if grid else rng.randrange(2, 9),
+                            "phase": rng.choice(PHASES), "protocol": rng.choice(["min-delay", "no-delay"])})
+            else:
+                seg.append({"k": "delay", "ch": ename, "dur": rng.choice([16, 24]) if grid else rng.randrange(2, 9)})
+        closed = rng.random() < 0.75
+        if closed:
+            seg.append({"k": "eom_off", "ch": ename})
+        others = [(nm, cid) for nm, cid in chans if nm != ename]
+        if others and rng.random() < 0.85:
+            nm, cid = rng.choice(others)
+            seg.append({"k": "add", "ch": nm, "dur": rng.randrange(8, 30), "amp": ["const", rng.choice(AMPS[1:5])],
+                        "det": _det_spec(rng), "phase": rng.choice(PHASES),
+                        "protocol": rng.choice(["no-delay", "min-delay", "wait-for-all"])})
+        if closed:
+            pos = rng.randrange(0, len(body) + 1)
+            body[pos:pos] = seg
+        else:       # a channel left in EOM mode refuses ordinary pulses: nothing else on it afterwards
+            body = [o for o in body if o.get("ch") != ename and o["k"] != "align"] + seg
     # channels declared after a DMM must play a detuned pulse (a DMM's per-atom weights must not leak onto them)
     for name, cid in chans:
         if name in after_dmm and rng.random() < 0.9 and not any(
@@ -934,6 +995,8 @@ def features(case, info: Rendered | None):
         fs.append("slm")
     if "phase_shift" in ks:
         fs.append("phase_shift")
+    if "eom_on" in ks:
+        fs.append("eom-closed" if "eom_off" in ks else "eom-left-open")
     if any(o.get("protocol") == "no-delay" for o in case["ops"]):
         fs.append("no-delay")
     if case["reg"].get("dim") == 3:
